@@ -202,20 +202,12 @@ Definition parse_value (E : menv) (fs : list (N * fvalue)) (f : N) (raw : text) 
               v_state := st; v_district := di; v_ward := wa |}
   end.
 
-Definition truncate_value (E : menv) (v : fvalue) : fvalue :=
-  {| v_text := truncate (max_field_chars E) (v_text v); v_dt := v_dt v; v_num := v_num v;
-     v_state := v_state v; v_district := v_district v; v_ward := v_ward v |}.
-
-(* a value truncated to nothing is no value *)
-Definition nonempty_value (v : option fvalue) : option fvalue :=
-  match v with
-  | Some x => match v_text x with [] => None | _ => Some x end
-  | None => None
-  end.
-
+(* FieldModifier.Apply: the value is cut to MaxFieldChars first and then parsed, so the typed values are those of the
+   stored text (fix F3h; before, the whole text was parsed and only Text was cut); a value cut to nothing is no value
+   (parse_value of the empty text) *)
 Definition apply_field (E : menv) (f : N) (raw : text) (c : contact) : contact * list event * bool :=
   let old := fget f (c_fields c) in
-  let new := nonempty_value (option_map (truncate_value E) (parse_value E (c_fields c) f raw)) in
+  let new := parse_value E (c_fields c) f (truncate (max_field_chars E) raw) in
   if negb (ofvalue_eqb new old)
   then (with_fields c (fset f new (c_fields c)), [EFieldChanged f new], true)
   else (c, [], false).
@@ -375,10 +367,9 @@ Definition chan_env_ok (E : menv) (m : modifier) (c : contact) : bool :=
 
 (* ---- the engine's writers of the session contact (flows/engine/session.go, flows/resumes/base.go) ---- *)
 
-(* session.ensureQueryBasedGroups *)
-Definition ensure_query_groups (E : menv) (c : contact) : contact * list event :=
-  let '(cur, added, removed) := reevaluate_query_groups E c in
-  (with_groups c cur, groups_event added removed).
+(* session.ensureQueryBasedGroups: delegates to modifiers.ReevaluateGroups (fix F6e; before, it re-evaluated the query
+   based groups only and left a non-active contact in its static groups) *)
+Definition ensure_query_groups (E : menv) (c : contact) : contact * list event := reevaluate_groups E c.
 
 (* contact equality as Contact.Equal sees it (marshalled JSON): pointer-free, field maps as maps,
    groups as the marshalled list *)
@@ -423,10 +414,13 @@ Fixpoint run_steps (E : menv) (ss : list step) (c : contact) : contact * list ev
      trigger SetInput (last seen := triggered_on) + msg_received — followed by ensureQueryBasedGroups again; then
      the actions of the visited nodes, each contact-changing action through baseAction.applyModifier.
      A flow without nodes visits nothing: only the first ensureQueryBasedGroups runs.
+   resume that fails the session (tryToResume: flow asset missing, resume limit reached, node gone or without wait):
+     nothing of the resume is applied; ensureQueryBasedGroups (fix F6f; before, nothing at all).
    resume (session.tryToResume): resume.Apply — contact refresh (contact_refreshed unless Equal), for a msg
      resume SetInput (last seen := resumed_on) + msg_received —; ensureQueryBasedGroups; then the actions. *)
 Inductive sprint_kind :=
 | KStartEmpty                                  (* any trigger, flow without nodes *)
+| KResumeFailed                                (* a resume that fails the session before it is applied *)
 | KStart (input : option N)                    (* Some t: msg trigger received at t *)
 | KResume (refresh : option contact) (input : option N).
 
@@ -437,6 +431,7 @@ Definition sprint_steps (k : sprint_kind) (acts : list (N * modifier)) : list st
   let applies := map (fun fm => SApply (fst fm) (snd fm)) acts in
   match k with
   | KStartEmpty => [SEnsure]
+  | KResumeFailed => [SEnsure]
   | KStart input => SEnsure :: opt_step SSetInput input ++ SEnsure :: applies
   | KResume refresh input => opt_step SRefresh refresh ++ opt_step SSetInput input ++ SEnsure :: applies
   end.
